@@ -116,7 +116,7 @@ def _(c):
 
 # ---------------------------------------------------------------- whole digests, bounded in length (compress through its loop-body contract)
 def install_blake_loop(c, h, kind):
-    from pyvc.sym import EngineError
+    from pyvc.errors import EngineError
     w = h.wsize
     cls = blake.Blake2 if kind == 'blake2' else blake.Blake
     qual = 'crysp.blake.%s.update' % cls.__name__
